@@ -139,8 +139,26 @@ def run_record(js, strategy, options=None, inject_at=None, tmpdir=None, reports=
             "bat": {k: {"cap": fr(v.capacity), "eff": fr(v.efficiency), "parent": v.parent, "loss": dict(v.loss_rate or {})}
                     for k, v in s.strat.world_state.batteries.items()},
             "cs_max0": {k: fr(v.max_power) for k, v in s.components.charging_stations.items()},
+            "static": static_info(s),
         })
     return r
+
+
+def static_info(s):
+    """time-invariant parameters of the strategy's world (for the step-level model)"""
+    ws = s.strat.world_state
+
+    def batp(b):
+        return {"cap": fr(b.capacity), "eff": fr(b.efficiency), "eps": fr(b.EPS),
+                "lc": [[fr(a), fr(b_)] for a, b_ in b.loading_curve.points], "uc": [[fr(a), fr(b_)] for a, b_ in b.unloading_curve.points]}
+    return {
+        "veh": {k: dict(batp(v.battery), minp=fr(v.vehicle_type.min_charging_power), v2g=bool(v.vehicle_type.v2g),
+                        dlimit=fr(v.vehicle_type.discharge_limit)) for k, v in ws.vehicles.items()},
+        "bat": {k: dict(batp(b), parent=b.parent, minp=fr(b.min_charging_power)) for k, b in ws.batteries.items()},
+        "veh_order": list(ws.vehicles.keys()), "veh_sorted": sorted(ws.vehicles),
+        "eps": fr(s.strat.EPS), "thresh": fr(s.strat.PRICE_THRESHOLD), "tsph": fr(s.strat.ts_per_hour),
+        "hours": fr(s.strat.interval.total_seconds() / 3600), "interval_us": s.strat.interval // datetime.timedelta(microseconds=1),
+    }
 
 
 SLOW = ("balanced_market", "peak_shaving", "flex_window", "peak_load_window", "schedule")
